@@ -99,3 +99,17 @@ Example isolation_lists_nonempty :
   interpret_item_ok ("bind", "data", "alias:self.data") = false /\
   interpret_item_ok ("mutate", "self.data.update", "literal") = false.
 Proof. vm_compute. repeat split; reflexivity. Qed.
+
+(* ------------------------------------------------------------------ directory order *)
+Lemma enumerations_ok_true : pairs_eqb iso_unsorted_enumerations reviewed_unsorted_enumerations = true.
+Proof. vm_compute. reflexivity. Qed.
+
+Lemma pairs_eqb_eq : forall a b, pairs_eqb a b = true -> a = b.
+Proof.
+  induction a as [|[x1 x2] a IH]; destruct b as [|[y1 y2] b]; cbn; intros H; try discriminate; [reflexivity|].
+  unfold pair_eqb in H. cbn in H. rewrite !andb_true_iff in H. destruct H as [[E1 E2] E3].
+  apply String.eqb_eq in E1, E2. subst. f_equal. apply IH. exact E3.
+Qed.
+
+Theorem directory_order_not_observed : iso_unsorted_enumerations = reviewed_unsorted_enumerations.
+Proof. apply pairs_eqb_eq. exact enumerations_ok_true. Qed.
